@@ -24,7 +24,7 @@ def floors(tier):
     k = 1 if tier == "quick" else 7
     return {"calls_judged": 3000 * k, "single_code_injections": 2000 * k, "retried_calls": 300 * k, "sleeps_compared": 600 * k,
             "deadlines_compared": 2500 * k, "retry_error_by_deadline": 20 * k, "unnamed_method_calls": 800 * k, "override_calls": 200 * k,
-            "client:aio": 1200 * k, "retry_only_entry_failing_for_minutes": 4 * k}
+            "client:aio": 1200 * k, "retry_only_entry_failing_for_minutes": 4 * k, "second_page_fault_calls": 40 * k}
 
 
 def plan(seed, tier):
@@ -146,6 +146,20 @@ def run_case(case):
             for client in ("grpc", "aio"):
                 calls.append({"service": s.name, "full_service": fs, "rpc": m.name, "method": rdm.py_method(m.name), "client": client,
                               "seq": seq, "shape": "override", "override": ov, "req_type": m.input_type.lstrip(".")})
+        if m.name == "List" and R:
+            # the second page of a listing fails: default retry, explicit retry=None and a custom retry each decide that fetch
+            p1 = model.new(m.output_type)
+            p1.items.extend(["a", "b"])
+            p1.next_page_token = "t1"
+            p2 = model.new(m.output_type)
+            p2.items.append("c")
+            cr = rng.choice(sorted(R))
+            for ov, seq in (({}, [cr]), ({"retry": "none"}, [cr]), ({"retry": "custom", "code": "NOT_FOUND"}, ["NOT_FOUND", "NOT_FOUND"]),
+                            ({"retry": "custom", "code": "NOT_FOUND"}, [cr])):
+                for client in ("grpc", "aio"):
+                    calls.append({"service": s.name, "full_service": fs, "rpc": m.name, "method": rdm.py_method(m.name), "client": client,
+                                  "seq": seq, "shape": "fault-on-second-page", "override": ov, "req_type": m.input_type.lstrip("."),
+                                  "paged": {"page1": rdm.b64(p1.SerializeToString()), "page2": rdm.b64(p2.SerializeToString())}})
     script = {"root_pkg": apigen.lib_root(api.info, api.options), "calls": calls}
     ev, rc, err = pipeline.run_runner("checks.c09", script, lib, timeout=500)
     if ev is None or "runner_crash" in ev or "library_import_error" in ev:
@@ -170,6 +184,8 @@ def run_case(case):
         bump("client:" + call["client"])
         if call["shape"] == "minutes-of-retryable-failures":
             bump("retry_only_entry_failing_for_minutes")
+        if call.get("paged"):
+            bump("second_page_fault_calls")
         if call["shape"] == "single":
             bump("single_code_injections")
         if not entry:
@@ -238,7 +254,9 @@ def in_runner(script):
     def setup(call):
         path = "/%s/%s" % (call["full_service"], call["rpc"])
         seq = call["seq"]
-        if seq and isinstance(seq[0], str) and seq[0].startswith("LOOP:"):
+        if call.get("paged"):
+            srv.script(path, [{"payloads": [call["paged"]["page1"]]}] + [{"code": c} for c in seq] + [{"payloads": [call["paged"]["page2"]]}], sticky=reply)
+        elif seq and isinstance(seq[0], str) and seq[0].startswith("LOOP:"):
             srv.script(path, [], sticky={"code": seq[0][5:]})
         else:
             srv.script(path, [{"code": c} for c in seq] + [reply], sticky=reply)
@@ -259,6 +277,8 @@ def in_runner(script):
 
     def finish(call, mark, s0, o):
         evs = srv.since(mark)
+        if call.get("paged"):
+            evs = evs[1:]           # the fetch of the first page is not what is judged
         o["attempts"] = len(evs)
         o["time_remaining"] = [e["time_remaining"] for e in evs]
         o["sleeps"] = list(vt.sleeps[s0:])
@@ -279,7 +299,9 @@ def in_runner(script):
         mark, s0 = srv.mark(), len(vt.sleeps)
         o = {}
         try:
-            getattr(clients[svc], call["method"])(request=lib.mk(call["req_type"], b""), **kwargs_of(call))
+            ret = getattr(clients[svc], call["method"])(request=lib.mk(call["req_type"], b""), **kwargs_of(call))
+            if call.get("paged"):
+                o["items"] = list(ret)
             o["outcome"] = {"ok": True}
         except Exception as e:  # noqa
             o["outcome"] = outcome_of(e)
@@ -297,7 +319,9 @@ def in_runner(script):
             mark, s0 = srv.mark(), len(vt.sleeps)
             o = {}
             try:
-                await getattr(ac[svc], call["method"])(request=lib.mk(call["req_type"], b""), **kwargs_of(call))
+                ret = await getattr(ac[svc], call["method"])(request=lib.mk(call["req_type"], b""), **kwargs_of(call))
+                if call.get("paged"):
+                    o["items"] = [x async for x in ret]
                 o["outcome"] = {"ok": True}
             except Exception as e:  # noqa
                 o["outcome"] = outcome_of(e)
